@@ -15,6 +15,8 @@
 #include <sqlite3.h>
 #include <functional>
 #include <sstream>
+#include <sys/wait.h>
+#include <unistd.h>
 using namespace vh;
 using cm::Doc;
 using cm::Value;
@@ -176,9 +178,13 @@ static bool prepare(S &s, const Scenario &sc, const Params &p) {
     if (sc.needs & 128) { UChar *n[] = {(UChar *) u"_a", (UChar *) u"_B", nullptr}; s.mval2 = pv(p.v1); if (cif_packet_create(&s.pkt2, n) != CIF_OK || cm::to_cif(s.mval2, &s.val2) != CIF_OK || cif_packet_set_item(s.pkt2, U(u"_a"), s.val2) != CIF_OK) return false; }
     return true;
 }
+// snapshot = "<dump of the managed CIF>" + "\x01" + "<caller-owned values and packets>"
+static std::string cif_part(const std::string &snap) { return snap.substr(0, snap.find('\x01')); }
+static bool objects_readable(const std::string &snap) { return snap.find("<unreadable", snap.find('\x01')) == std::string::npos && snap.find("<names unreadable>") == std::string::npos; }
 static std::string snapshot(S &s) {
     std::string o;
     if (s.cif) { Doc d; int rc = cm::dump(s.cif, d); o += rc == CIF_OK ? cm::ser(d, cm::EXACT, true) : std::string("<dump failed ") + cm::code_name(rc) + ">"; }
+    o += '\x01';
     for (cif_value_tp *v : {s.val, s.val2}) { if (!v) { o += "|-"; continue; } Value m; o += "|" + (cm::from_cif(v, m) == CIF_OK ? cm::ser(m) : std::string("<unreadable value>")); }
     for (cif_packet_tp *p : {s.pkt, s.pkt2}) {
         if (!p) { o += "|-"; continue; }
@@ -198,6 +204,7 @@ static std::string run_case(const CaseFile &c) {
     bool sqlite_side = c.geti("sqlite") != 0;
     long only_k = c.geti("k", 0);        // replay of one fault point
     label(std::string("fn:") + sc.name);
+    if (getenv("VERIF_C17_SHOW")) fprintf(stderr, "scenario %zu = %s\n", idx, sc.name);
     CaseGuard guard;
     std::string msg;
     // 1. fault-free reference run
@@ -244,11 +251,10 @@ static std::string run_case(const CaseFile &c) {
         sc.release(s); s.out_ptr = nullptr;
         if (s.it && !(sc.needs & 2)) { (void) cif_pktitr_abort(s.it); s.it = nullptr; }
         if (!(sc.needs & 2)) {
-            // caller-owned objects intact, managed CIF unchanged
+            // caller-owned objects still valid (readable, and released normally below); the managed CIF consistent and unchanged
             std::string post = snapshot(s);
-            if (post != pre) {
-                if (sc.modifies || true) msg = at + "failed with " + cm::code_name(rc) + " but left a different state behind\n--- before\n" + pre + "\n--- after\n" + post;
-            }
+            if (cif_part(post) != cif_part(pre)) msg = at + "failed with " + cm::code_name(rc) + " but the managed CIF is no longer what it was\n--- before\n" + cif_part(pre) + "\n--- after\n" + cif_part(post);
+            else if (!objects_readable(post)) msg = at + "failed with " + cm::code_name(rc) + " and left a caller-owned object unreadable: " + post.substr(post.find('\x01') + 1);
             // 3. retry with memory available: behaves like the fault-free run
             if (msg.empty()) {
                 int rr = sc.call(s, p);
@@ -256,7 +262,7 @@ static std::string run_case(const CaseFile &c) {
                 if (s.it) { (void) cif_pktitr_abort(s.it); s.it = nullptr; }
                 std::string postr = snapshot(s);
                 if (rr != r0) msg = at + "after the failure the same call, repeated with memory available, returned " + cm::code_name(rr);
-                else if (postr != post0) msg = at + "the retried call succeeded but its outcome differs from the fault-free run\n--- fault-free\n" + post0 + "\n--- retried\n" + postr;
+                else if (cif_part(postr) != cif_part(post0)) msg = at + "the retried call succeeded but the managed CIF differs from the fault-free run\n--- fault-free\n" + cif_part(post0) + "\n--- retried\n" + cif_part(postr);
             }
         } else {
             // iterator scenarios: the iterator (if it still exists) can be aborted and the CIF read afterwards
@@ -275,6 +281,19 @@ int main(int argc, char **argv) {
     e.name = "C17_oom";
     e.run = []() {
         install_sqlite_hook();
+        if (getenv("VERIF_C17_SURVEY")) {   // development aid: every scenario x both allocator sides once, reporting instead of stopping
+            { cif_tp *w = nullptr; if (cif_create(&w) == CIF_OK) (void) cif_destroy(w); }
+            for (size_t i = 0; i < scenarios().size(); i++) for (int side = 0; side < 2; side++) {
+                CaseFile c; c.seti("scenario", (long) i); c.seti("a", 1); c.seti("b", 1); c.set("v1", "L[C1\"x\",T{\"k\":C1\"y\"}]"); c.set("v2", "T{\"a\":L[C1\"p\",N0\"1.5(2)\"],\"b\":C1\"q\"}");
+                c.set("doc", "#\\#CIF_2.0\ndata_parsed\n_p1 'v'\n_p2\n;text\nfield\n;\nloop_ _q1 _q2 1 [a {'k':v}] 2 ?\nsave_fr _f 1 save_\n"); c.seti("sqlite", side);
+                begin_case(c);
+                pid_t pid = fork();
+                if (pid == 0) { std::string m = run_case(c); printf("SURVEY %-45s %-8s %s\n", scenarios()[i].name, side ? "sqlite" : "library", m.empty() ? "ok" : m.substr(0, 160).c_str()); fflush(stdout); _exit(0); }
+                int st = 0; waitpid(pid, &st, 0);
+                if (!WIFEXITED(st) || WEXITSTATUS(st) != 0) { printf("SURVEY %-45s %-8s CRASH (status %d)\n", scenarios()[i].name, side ? "sqlite" : "library", st); fflush(stdout); }
+            }
+            return true;
+        }
         { cif_tp *w = nullptr; if (cif_create(&w) == CIF_OK) (void) cif_destroy(w); }
         return rc::check("C17 a failed allocation yields an error code, not a crash or corruption", []() {
             g::ValueOpts vo; vo.prof = g::P_CIF2; vo.maxlen = 40; vo.maxdepth = 3; vo.maxmembers = 3;
